@@ -206,6 +206,19 @@ def rule_enqueue_after_success(ctx, rid, r):
                    "queue.put outside the node callback (not covered by the success-path rule)", norm(c))
 
 
+def rule_callbacks_only_via_engine(ctx, rid, r, callbacks):
+    """The functions that execute plan calls / examine stores are invoked only through the engine's user-call site
+    (no sibling executor that walks the graph by itself)."""
+    m = ctx.model
+    for cb in callbacks:
+        sites = m.callers.get(cb, set())
+        bad = [(f, c) for f, c in sites if not (f is r.nodecb and c is r.usercall)]
+        ctx.ob(rid, f"{cb.short}/only-via-engine", not bad and bool(sites), loc(cb),
+               "invoked only through the engine's node callback" if not bad and sites else
+               (f"also invoked directly from {bad[0][0].short} (`{norm(bad[0][1])[:60]}`): a second executor that bypasses the "
+                f"engine's ordering/failure rules" if bad else "never reaches the engine"))
+
+
 # ------------------------------------------------------------------------------------------------ A2
 def rule_atomic_counter(ctx, rid, r):
     m = ctx.model
@@ -498,101 +511,110 @@ def rule_initial_ready_set(ctx, rid, r):
 
 # ------------------------------------------------------------------------------------------------ A5 / D4 / L5
 def rule_queue_effects(ctx, rid, r, rid_seed=None, rid_unbounded=None):
-    """_put adds exactly the item, _get removes exactly what it returns, _qsize is the container length;
-    every construction seeds unfinished_tasks with the number of seeded items and is unbounded."""
+    """Every queue kind, interpreted by the checker's AST evaluator on token queues of size 0..3 with every outcome
+    of random.randrange enumerated: _put adds exactly the item (multiset), _get removes exactly what it returns,
+    _qsize is the number of stored items; constructions seed unfinished_tasks and are unbounded."""
+    from ..absval import AbsRaise, Interp, Obj, Stub
     m = ctx.model
     ctx.trust("queue.Queue: put/get/task_done/join are atomic under Queue.mutex and delegate storage to "
               "_put/_get/_qsize; put never blocks when maxsize <= 0; join returns when unfinished_tasks reaches 0")
     ctx.floor(rid, "Queue subclasses", len(r.queue_classes), 2)
     rid_seed = rid_seed or rid
     rid_unbounded = rid_unbounded or rid
+    n_eval = 0
 
-    def self_queue(e, selfname):
-        return isinstance(e, ast.Attribute) and e.attr == "queue" and is_name(e.value, selfname)
+    def run_with_choices(fn):
+        """Run fn(choose) for every sequence of outcomes of the nondeterministic choice points."""
+        results = []
+        pending = [[]]
+        while pending:
+            prefix = pending.pop()
+            trace = []
+
+            def choose(n, prefix=prefix, trace=trace):
+                k = len(trace)
+                if n <= 0:
+                    raise AbsRaise("ValueError: empty range")
+                v = prefix[k] if k < len(prefix) else 0
+                trace.append((v, n))
+                return v
+            out = fn(choose)
+            results.append(out)
+            # schedule siblings of the choices made beyond the prefix
+            for k in range(len(prefix), len(trace)):
+                v, n = trace[k]
+                for alt in range(1, n):
+                    pending.append([t[0] for t in trace[:k]] + [alt])
+            if len(results) > 2000:
+                raise AnalysisError("queue effect evaluation: too many nondeterministic outcomes")
+        return results
+
+    def value_of(x):
+        return x.attrs.get("value", x) if isinstance(x, Obj) and x.cls is not None and "value" in x.attrs and "key" in x.attrs else x
 
     for cls in r.queue_classes:
         for need_m in ("_put", "_get", "_qsize", "__init__"):
             if need_m not in cls.methods:
                 raise AnalysisError(f"{cls.qualname}: missing {need_m}")
-        # ---- _put
+        bad_put, bad_get, bad_size, bad_seed = [], [], [], []
+        for size in range(0, 4):
+            tokens = [f"t{i}" for i in range(size)]
+
+            def scenario(choose, tokens=tokens):
+                ext = {"random.randrange": lambda n, *a: choose(n), "random.shuffle": lambda lst: None,
+                       "random.randint": lambda a_, b_: a_ + choose(b_ - a_ + 1), "random.random": lambda: 0.5,
+                       "heapq.heapify": lambda lst: None, "heapq.heappush": lambda lst, x: lst.append(x),
+                       "heapq.heappop": lambda lst: lst.pop(0)}
+                it = Interp(m, ext=ext)
+                q = Obj(cls, {"unfinished_tasks": 0})
+                init = cls.methods["__init__"]
+                args = [list(tokens)] + ([Stub("priority", lambda node: 0)] if len(init.pos_params) > 2 else [])
+                it.call_func(init, None, args, {}, bound_self=q)
+                seeded = [value_of(x) for x in q.attrs.get("queue", [])]
+                ut = q.attrs.get("unfinished_tasks")
+                size_before = it.call_func(cls.methods["_qsize"], None, [], {}, bound_self=q)
+                it.call_func(cls.methods["_put"], None, ["NEW"], {}, bound_self=q)
+                after_put = [value_of(x) for x in q.attrs["queue"]]
+                size_after = it.call_func(cls.methods["_qsize"], None, [], {}, bound_self=q)
+                got = it.call_func(cls.methods["_get"], None, [], {}, bound_self=q)
+                after_get = [value_of(x) for x in q.attrs["queue"]]
+                return seeded, ut, size_before, after_put, size_after, got, after_get
+            try:
+                outs = run_with_choices(scenario)
+            except AbsRaise as e:
+                raise AnalysisError(f"{cls.qualname}: abstract evaluation raised {e.value!r}")
+            for seeded, ut, sb, ap, sa, got, ag in outs:
+                n_eval += 1
+                if sorted(seeded) != sorted(tokens) or ut != len(tokens):
+                    bad_seed.append((tokens, seeded, ut))
+                if sorted(ap) != sorted(tokens + ["NEW"]):
+                    bad_put.append((tokens, ap))
+                if sb != len(tokens) or sa != len(ap):
+                    bad_size.append((tokens, sb, sa))
+                if sorted(ag + [got]) != sorted(ap) or len(ag) != len(ap) - 1:
+                    bad_get.append((ap, got, ag))
         f = cls.methods["_put"]
-        s, item = f.pos_params[0], f.pos_params[1]
-        plus = 0
-        carries = False
-        bad = []
-        for st in f.node.body:
-            if isinstance(st, ast.Expr) and isinstance(st.value, ast.Constant):
-                continue
-            txt = norm(st)
-            if isinstance(st, ast.Expr) and isinstance(st.value, ast.Call):
-                c = st.value
-                if isinstance(c.func, ast.Attribute) and c.func.attr in ("append", "appendleft") and self_queue(c.func.value, s):
-                    plus += 1
-                    carries |= wraps_item(m, f, c.args[0], item)
-                    continue
-                if ext_names(m, f, c) & {"heapq.heappush"} and self_queue(c.args[0], s):
-                    plus += 1
-                    carries |= wraps_item(m, f, c.args[1], item)
-                    continue
-            if isinstance(st, ast.Assign):
-                # permutation of two slots / a neutral local computation
-                tg = st.targets[0]
-                if isinstance(tg, ast.Tuple) and isinstance(st.value, ast.Tuple) and len(tg.elts) == 2 and \
-                        sorted(norm(x) for x in tg.elts) == sorted(norm(x) for x in st.value.elts) and \
-                        all(isinstance(x, ast.Subscript) and self_queue(x.value, s) for x in tg.elts):
-                    continue
-                if isinstance(tg, ast.Name) and not any(self_queue(x, s) and isinstance(getattr(x, "ctx", None), ast.Store)
-                                                        for x in ast.walk(st)):
-                    mutating = [x for x in ast.walk(st.value) if isinstance(x, ast.Call) and isinstance(x.func, ast.Attribute)
-                                and self_queue(x.func.value, s)]
-                    if not mutating:
-                        continue
-            bad.append(txt)
-        if bad:
-            raise AnalysisError(f"{f.qualname}: statement(s) outside the multiset-effect language: {bad}")
-        ok = plus == 1 and carries
-        ctx.ob(rid, f"{f.short}/adds-item-once", ok, loc(f),
-               "net effect of _put: +1 element carrying the item" if ok else
-               f"_put adds {plus} element(s){'' if carries else ' not carrying the item'}: the queue loses or duplicates nodes")
-        # ---- _get
+        ctx.ob(rid, f"{f.short}/adds-item-once", not bad_put, loc(f),
+               "net effect of _put on every evaluated queue state and random outcome: + exactly the item" if not bad_put else
+               f"_put loses or duplicates nodes: queue {bad_put[0][0]} + NEW -> {bad_put[0][1]}")
         f = cls.methods["_get"]
-        s = f.pos_params[0]
-        rets = [n for n in f.own_nodes() if isinstance(n, ast.Return)]
-        body = [st for st in f.node.body if not (isinstance(st, ast.Expr) and isinstance(st.value, ast.Constant))]
-        ok = False
-        why = "unrecognised _get"
-        if len(body) == 1 and len(rets) == 1 and rets[0].value is not None:
-            v = rets[0].value
-            field = None
-            if isinstance(v, ast.Attribute):
-                field, v = v.attr, v.value
-            if isinstance(v, ast.Call):
-                if isinstance(v.func, ast.Attribute) and v.func.attr in ("pop", "popleft") and self_queue(v.func.value, s) \
-                        and (not v.args or isinstance(v.args[0], (ast.Constant, ast.UnaryOp))):
-                    ok = True
-                elif ext_names(m, f, v) & {"heapq.heappop"} and v.args and self_queue(v.args[0], s):
-                    ok = True
-            if ok and field is not None:
-                ok = field == getattr(cls, "_item_field", field)
-                why = f"_get returns field .{field} of the removed wrapper"
-            elif ok:
-                why = "_get removes and returns one element"
-        else:
-            why = "_get is not a single `return <pop>` statement (peeking without removal duplicates nodes)"
-        if not ok and len(body) != 1:
-            raise AnalysisError(f"{f.qualname}: body outside the multiset-effect language")
-        ctx.ob(rid, f"{f.short}/removes-what-it-returns", ok, loc(f), why if ok else
-               "_get does not remove exactly the element it returns", norm(rets[0]) if rets else "")
-        # ---- _qsize
+        ctx.ob(rid, f"{f.short}/removes-what-it-returns", not bad_get, loc(f),
+               "_get removes exactly the element it returns" if not bad_get else
+               f"_get does not remove exactly what it returns: {bad_get[0][0]} -> returned {bad_get[0][1]!r}, left {bad_get[0][2]}")
         f = cls.methods["_qsize"]
-        s = f.pos_params[0]
-        rets = [n for n in f.own_nodes() if isinstance(n, ast.Return) and n.value is not None]
-        ok = len(rets) == 1 and norm(rets[0].value) == f"len({s}.queue)"
-        ctx.ob(rid, f"{f.short}/size", ok, loc(f), "_qsize is the container length" if ok else
-               "_qsize is not len(self.queue): get() may block on a non-empty queue or pop from an empty one")
-        # ---- __init__: seeding
+        ctx.ob(rid, f"{f.short}/size", not bad_size, loc(f), "_qsize is the number of stored items" if not bad_size else
+               f"_qsize disagrees with the container: {bad_size[0]}")
         f = cls.methods["__init__"]
-        check_seed(ctx, rid_seed, rid_unbounded, m, f, f.pos_params[0], cls)
+        ctx.ob(rid_seed, f"{f.short}/seeded-unfinished-tasks", not bad_seed, loc(f),
+               "the constructor stores every initial item once and seeds unfinished_tasks with their number" if not bad_seed else
+               f"constructor seeding is wrong: items {bad_seed[0][0]} -> stored {bad_seed[0][1]}, unfinished_tasks={bad_seed[0][2]} "
+               f"(join() returns before the seeded nodes ran, or task_done() raises)")
+        for n in f.own_nodes():
+            if isinstance(n, ast.Call) and isinstance(n.func, ast.Attribute) and n.func.attr == "__init__":
+                okb = not n.args and not n.keywords
+                ctx.ob(rid_unbounded, f"{f.short}/unbounded", okb, loc(f, n), "super().__init__() is unbounded" if okb else
+                       "bounded queue: put() can block", norm(n))
+    ctx.notes["queue_effect_cases_evaluated"] = n_eval
     # plain Queue() constructions in the scheduler module(s)
     mods = {c.module for c in r.queue_classes} | {r.queue_factory.module}
     n_plain = 0
@@ -608,7 +630,6 @@ def rule_queue_effects(ctx, rid, r, rid_seed=None, rid_unbounded=None):
                     okb = isinstance(mv, int) and mv <= 0
                 ctx.ob(rid_unbounded, f"{f.short}/unbounded", okb, loc(f, c), "Queue() is unbounded" if okb else
                        "bounded queue: put() from a worker can block forever while every worker is blocked in put", norm(c))
-                # variable holding it
                 st = stmt_of(f.module, c)
                 if isinstance(st, ast.Assign) and isinstance(st.targets[0], ast.Name):
                     check_seed(ctx, rid_seed, rid_unbounded, m, f, st.targets[0].id, None)
